@@ -707,14 +707,16 @@ type memConn struct {
 	lport int
 }
 
-func (c *memConn) Read(p []byte) (int, error)      { return c.r.Read(p) }
-func (c *memConn) Write(p []byte) (int, error)     { return c.w.Write(p) }
-func (*memConn) Close() error                      { return nil }
-func (c *memConn) LocalAddr() net.Addr             { return &net.TCPAddr{IP: net.IPv4(127, 0, 0, 1), Port: c.lport} }
-func (*memConn) RemoteAddr() net.Addr              { return &net.TCPAddr{IP: net.IPv4(10, 0, 0, 7), Port: 4242} }
-func (*memConn) SetDeadline(time.Time) error       { return nil }
-func (*memConn) SetReadDeadline(time.Time) error   { return nil }
-func (*memConn) SetWriteDeadline(time.Time) error  { return nil }
+func (c *memConn) Read(p []byte) (int, error)  { return c.r.Read(p) }
+func (c *memConn) Write(p []byte) (int, error) { return c.w.Write(p) }
+func (*memConn) Close() error                  { return nil }
+func (c *memConn) LocalAddr() net.Addr {
+	return &net.TCPAddr{IP: net.IPv4(127, 0, 0, 1), Port: c.lport}
+}
+func (*memConn) RemoteAddr() net.Addr             { return &net.TCPAddr{IP: net.IPv4(10, 0, 0, 7), Port: 4242} }
+func (*memConn) SetDeadline(time.Time) error      { return nil }
+func (*memConn) SetReadDeadline(time.Time) error  { return nil }
+func (*memConn) SetWriteDeadline(time.Time) error { return nil }
 
 // serveConn feeds the given wire bytes to one connection and returns everything the server wrote.
 func (s *site) serveConn(in []byte, lport int) []byte {
@@ -1352,11 +1354,29 @@ func runChildren(w *gen.Writer, o gen.Opts, chunk int) {
 			to = o.N
 		}
 		tmp := fmt.Sprintf("%s.part%d", o.Out, from)
-		cmd := exec.Command(self, "-seed", strconv.FormatUint(o.Seed, 10), "-n", strconv.Itoa(o.N), "-tier", o.Tier, "-out", tmp)
-		cmd.Env = append(os.Environ(), fmt.Sprintf("C05_CHILD=%d:%d", from, to))
-		cmd.Stderr = os.Stderr
-		if err := cmd.Run(); err != nil {
-			panic(fmt.Sprintf("child %d:%d: %v", from, to, err))
+		// a crashed child is re-run once alone; its stderr is kept (head first: the goroutine dump of a
+		// Go fatal error is long and the orchestrator only shows the tail of our output)
+		var lastErr error
+		var errOut bytes.Buffer
+		for attempt := 0; attempt < 2; attempt++ {
+			errOut.Reset()
+			cmd := exec.Command(self, "-seed", strconv.FormatUint(o.Seed, 10), "-n", strconv.Itoa(o.N), "-tier", o.Tier, "-out", tmp)
+			cmd.Env = append(os.Environ(), fmt.Sprintf("C05_CHILD=%d:%d", from, to))
+			cmd.Stderr = &errOut
+			if lastErr = cmd.Run(); lastErr == nil {
+				break
+			}
+			head := errOut.Bytes()
+			if len(head) > 1500 {
+				head = head[:1500]
+			}
+			crash := fmt.Sprintf("%s.crash%d.%d.stderr", o.Out, from, attempt)
+			_ = os.WriteFile(crash, errOut.Bytes(), 0o644)
+			fmt.Fprintf(os.Stderr, "child %d:%d attempt %d: %v; stderr kept in %s; it begins:\n%s\n", from, to, attempt, lastErr, crash, head)
+			w.Count("child-crash")
+		}
+		if lastErr != nil {
+			panic(fmt.Sprintf("child %d:%d crashed twice: %v", from, to, lastErr))
 		}
 		f, err := os.Open(tmp)
 		if err != nil {
